@@ -360,6 +360,67 @@ func emptyFluent(f *failer) {
 	}
 }
 
+// a derived container keeps its identity through its whole size history: grown far beyond its first capacity, drained element by
+// element through every removing operation, grown again - after EVERY step the call returned the registered value and the holders
+// still hand back the identical value (an implementation that rebuilds its storage at some fill ratio must not rebuild the identity)
+func sizeHistoryFluent(f *failer) {
+	for _, n0 := range []int{40, 70, 130} {
+		ml := newMyList(manyVals(n0)...)
+		var outer at.List = ml
+		holder := at.NewList(ml, "x")
+		hobj := at.NewObject("d", ml)
+		check := func(step string, ret at.List) {
+			if ret != outer {
+				f.fail("derived list of %d elements, %s at count %d: the call returned %T, not the registered derived value", n0, step, ml.Count(), ret)
+			}
+			if holder.Get(0) != any(outer) || holder.GetList(0) != outer || hobj.GetList("d") != outer || hobj.GetTF(".d") != any(outer) {
+				f.fail("derived list of %d elements, after %s at count %d the holders no longer hand back the identical derived value", n0, step, ml.Count())
+			}
+			if ml.Ego() != outer {
+				f.fail("derived list of %d elements, after %s at count %d Ego() is no longer the registered value", n0, step, ml.Count())
+			}
+		}
+		for k := 0; ml.Count() > 0; k++ {
+			switch k % 4 {
+			case 0:
+				check("Pop", ml.Pop())
+			case 1:
+				check("Delete(0)", ml.Delete(0))
+			case 2:
+				check("UnsetTF(#0)", ml.UnsetTF("#0"))
+			default:
+				if ml.Count() >= 3 {
+					check("Delete(0, 2)", ml.Delete(0, 2))
+				} else {
+					check("Pop", ml.Pop())
+				}
+			}
+		}
+		check("Add after the list was drained", ml.Add(1, 2, 3))
+		check("Clear", ml.Clear())
+		mo := newMyObj(manyPairs(n0)...)
+		var oo at.Object = mo
+		oh := at.NewList(mo)
+		ocheck := func(step string, ret at.Object) {
+			if ret != oo {
+				f.fail("derived object of %d fields, %s at count %d: the call returned %T, not the registered derived value", n0, step, mo.Count(), ret)
+			}
+			if oh.Get(0) != any(oo) || oh.GetObject(0) != oo || mo.Ego() != oo {
+				f.fail("derived object of %d fields, after %s at count %d the holder no longer hands back the identical derived value", n0, step, mo.Count())
+			}
+		}
+		for k := 0; k < n0; k++ {
+			if k%2 == 0 {
+				ocheck("Unset", mo.Unset(fmt.Sprintf("k%d", k)))
+			} else {
+				ocheck("UnsetTF", mo.UnsetTF(fmt.Sprintf(".k%d", k)))
+			}
+		}
+		ocheck("Set after the object was drained", mo.Set("z", 1))
+		ocheck("Clear", mo.Clear())
+	}
+}
+
 // a stored derived value reaches the callbacks of the async iteration as the identical value too
 func asyncRetrieval(f *failer, outer any) {
 	hl := at.NewList(0, outer, "x")
@@ -402,6 +463,7 @@ func storedChecks(f *failer, outer any, isObj bool) {
 	defer overEqualPlain(f, outer)
 	defer asyncRetrieval(f, outer)
 	defer emptyFluent(f)
+	defer sizeHistoryFluent(f)
 	// a mutator that panics (an invalid index in a multi-index Delete, Insert/Replace out of range, Set with an odd count) leaves
 	// the stored derived values where they are: the identical outer value is still handed back
 	func() {
